@@ -15,6 +15,8 @@ from amaranth.hdl import Fragment
 from amaranth.sim import Simulator
 
 warnings.filterwarnings("ignore", category=DeprecationWarning)
+from amaranth._unused import MustUse
+MustUse._MustUse__silence = True     # the checks build thousands of throw-away components
 
 
 def raw(sig):
@@ -78,9 +80,11 @@ def pmap(fn, items, procs=None):
 
 
 def tour(edges, s0, rng, max_len=None):
-    """Edge-covering walk.  edges: iterable of (s, i, t) with hashable s/t and any i.
-    Returns the list of (s, i, t) taken, starting from s0, covering every edge reachable from
-    s0 at least once (greedy: untaken edge here, else shortest path to a state that has one)."""
+    """Edge-covering walks.  edges: iterable of (s, i, t) with hashable s/t and any i.
+    Returns (walks, remaining): each walk is a list of (s, i, t) starting from s0; together they
+    cover every edge reachable from s0 (greedy: an untaken edge here, else the shortest path to a
+    state that has one, else - absorbing states such as "frozen" - restart from s0 on a fresh
+    object)."""
     out = {}
     for (s, i, t) in edges:
         out.setdefault(s, []).append((i, t))
@@ -88,17 +92,19 @@ def tour(edges, s0, rng, max_len=None):
         rng.shuffle(out[s])
     untaken = {s: list(range(len(v))) for s, v in out.items()}
     remaining = sum(len(v) for v in untaken.values())
+    walks = []
     walk = []
     cur = s0
-    while remaining and (max_len is None or len(walk) < max_len):
+    total = 0
+    while remaining and (max_len is None or total < max_len):
         if untaken.get(cur):
             k = untaken[cur].pop()
             i, t = out[cur][k]
             walk.append((cur, i, t))
+            total += 1
             remaining -= 1
             cur = t
             continue
-        # BFS to the nearest state with an untaken edge
         prev = {cur: None}
         queue = [cur]
         goal = None
@@ -116,7 +122,12 @@ def tour(edges, s0, rng, max_len=None):
                     break
             queue = nxt
         if goal is None:
-            break   # the rest is unreachable from here
+            if cur == s0 and not walk:
+                break           # the rest is unreachable from the initial state
+            walks.append(walk)
+            walk = []
+            cur = s0
+            continue
         path = []
         t = goal
         while prev[t] is not None:
@@ -125,5 +136,8 @@ def tour(edges, s0, rng, max_len=None):
             t = s
         for step in reversed(path):
             walk.append(step)
+            total += 1
         cur = goal
-    return walk, remaining
+    if walk:
+        walks.append(walk)
+    return walks, remaining
